@@ -27,7 +27,7 @@ CLAIM = dict(cat="proof", design="§3 C20, §8 O2/O3",
         "CMacIonizeSnapshotDensityFunction (and BufferedCMacIonizeSnapshotDensityFunction) into a second grid on the same geometry; every cell's density, temperature and all stored neutral fractions must be BIT-IDENTICAL "
         "(the datasets are binary64: H5Tget_size = 8 is checked; a binary32 file would be held to the nearest float); the raw file order and the dataset position each cell was read from (observed through the distinct values) "
         "are compared with the extracted wr_entries / rd_entries for every cell.",
-   note="Snapshot clause: proved for the TaskBased and Cartesian branches only (AMR and Voronoi snapshots are not modelled or exercised); positions over Q (exact midpoints) under the hypothesis that the reader's "
+   note="Driver tie (no model): the used-values dump of complete runs (default mode with a tracker, default mode, task-based) is fed back to the binary: nothing the run was given is dumped as unused, the second run succeeds and dumps the same values. Snapshot clause: proved for the TaskBased and Cartesian branches only (AMR and Voronoi snapshots are not modelled or exercised); positions over Q (exact midpoints) under the hypothesis that the reader's "
         "anchor/sides equal the grid's; binary64 rounding of ncell*(x-anchor)/side and the HDF5 library are exercised on the real code for the generated boxes only, not proved. The buffered reader is tied by the oracle and "
         "by the same index model, its own position arithmetic is not modelled. FINDINGS of the unchanged code (reported as notes, see PINNED_BOX_PRECISION): (1) snapshot_box_precision: the /Parameters block stores "
         "SimulationBox:anchor/sides as used values with 6 significant digits; a box that needs more (e.g. anchor z 428.77666347504663 m, side 0.007542463164563509 m, 12 cells: 1056 of 1152 cells) is read back with the values "
